@@ -1,5 +1,6 @@
 import BindgenModel.Model.Util
 import BindgenModel.Model.CDecl
+import BindgenModel.Model.CDeclVariadic
 /-! Line protocol for the static-wrapper model (first token `cdecl`).
 
 Type encoding (prefix, space separated): `b<c>:void|nullptr|int:<IntKind>|float:<FloatKind>|complex:<FloatKind>|`
@@ -12,7 +13,13 @@ Type encoding (prefix, space separated): `b<c>:void|nullptr|int:<IntKind>|float:
   (rt: the printed declaration parses back to the denoted type and name; lex: the character lexer
   reads the text as the token list the theorems speak about)
 * `cdecl codegen wrap=<0|1> suffix=<s> name= canon= mangled=<m|-> link=<l|-> internal=<0|1> variadic=<0|1>` →
-  `none` | `ident=<i> link=<l|-> wrapped=<0|1> sym=<name++suffix>` -/
+  `none` | `ident=<i> link=<l|-> wrapped=<0|1> sym=<name++suffix>`
+* `cdecl vatable` → `pl=<insert|push> max=<n> name=<s>` (the `wrap_as_variadic` entries of the generated table)
+* `cdecl vawrap a=<0|1|gen> pl=<insert|push|gen> suffix=<s> name=<f> idx=<n|-> ret T params ( … )` →
+  `error` | `panic` | `ok clash=<0|1> text=<wrapper text, newline as \n>` (`idx=-`: `wrap_as_variadic` is `None`)
+* `cdecl vacodegen wrap= suffix= name= canon= mangled= link= internal= variadic= cb=<new name|-> chains=<c;c;…|->` →
+  `none` | `ident=<i> link=<l|-> wrapped=<0|1> va=<idx|-> cvariadic=<0|1> args=<i,j,…|->`; one chain per argument,
+  `name:<0|1>,…` = (`ty.name()` or `-`, kind is Alias/ResolvedTypeRef) along the walk of `wrap_as_variadic_fn` -/
 namespace BindgenModel.Driver.C16
 open BindgenModel.Util BindgenModel.CDecl BindgenModel.Generated.SerializeArms
 
@@ -166,8 +173,72 @@ def handleCodegen (toks : List String) : String :=
         " wrapped=" ++ b01 b.wrapped ++ " sym=" ++ str (wrapperSymbol suffix.toList f)
   | _, _, _, _, _, _, _, _ => "bad-op"
 
+def placement (toks : List String) : ApPlacement :=
+  match kv toks "pl" with
+  | some "insert" => .insertAtVaListIdx
+  | some "push" => .pushLast
+  | _ => vaApPlacement
+
+def handleVaWrap (toks : List String) : String :=
+  let a := variant toks
+  let pl := placement toks
+  let idx : Option (Option Nat) := match kv toks "idx" with
+    | some "-" => some none
+    | some s => s.toNat?.map some
+    | none => none
+  match kv toks "suffix", kv toks "name", idx with
+  | some suffix, some name, some idx =>
+    match toks.dropWhile (· != "ret") with
+    | _ :: rest => match decodeType 200 rest with
+      | some (ret, "params" :: "(" :: r) => match decodeParams 200 r with
+        | some (ps, []) =>
+          let f : Fn := { name := name.toList, ret := ret, params := ps }
+          let wv : Option WrapVa := idx.map fun i => { newName := [], idx := i }
+          match wrapperTextV a pl suffix.toList f wv with
+          | .error => "error"
+          | .panic => "panic"
+          | .ok txt =>
+            let clash := match idx with
+              | some i => vaNameClash f i
+              | none => false
+            "ok clash=" ++ b01 clash ++ " text=" ++ escapeNl txt
+        | _ => "bad-op"
+      | _ => "bad-op"
+    | [] => "bad-op"
+  | _, _, _ => "bad-op"
+
+def decodeStep (s : String) : Option (Option Name × Bool) :=
+  match (s.splitOn ":").reverse with
+  | c :: n :: more =>
+    let name := ":".intercalate (n :: more).reverse
+    (flag c).map fun c => (if name == "-" then none else some name.toList, c)
+  | _ => none
+
+def decodeChains (s : String) : Option (List TyChain) :=
+  if s == "-" then some [] else
+  (s.splitOn ";").mapM fun c => if c == "" then some [] else (c.splitOn ",").mapM decodeStep
+
+def handleVaCodegen (toks : List String) : String :=
+  match (kv toks "wrap").bind flag, kv toks "suffix", kv toks "name", kv toks "canon",
+        optName (kv toks "mangled"), optName (kv toks "link"), (kv toks "internal").bind flag,
+        (kv toks "variadic").bind flag, optName (kv toks "cb"), (kv toks "chains").bind decodeChains with
+  | some wrap, some suffix, some name, some canon, some mangled, some link, some internal, some variadic, some cb, some chains =>
+    let f : FnInfo := { name := name.toList, canonical := canon.toList, mangled := mangled, linkAttr := link,
+                        internal := internal, variadic := variadic }
+    match codegenFnV wrap suffix.toList f chains cb with
+    | none => "none"
+    | some b => "ident=" ++ str b.ident ++ " link=" ++ (match b.link with | some l => str l | none => "-") ++
+        " wrapped=" ++ b01 b.wrapped ++ " va=" ++ (match b.va with | some w => toString w.idx | none => "-") ++
+        " cvariadic=" ++ b01 b.cVariadic ++
+        " args=" ++ (if b.args.isEmpty then "-" else ",".intercalate (b.args.map toString))
+  | _, _, _, _, _, _, _, _, _, _ => "bad-op"
+
 def handle (toks : List String) : String :=
   match toks with
+  | "vatable" :: _ => "pl=" ++ (match vaApPlacement with | .insertAtVaListIdx => "insert" | .pushLast => "push") ++
+      " max=" ++ toString vaMaxArgsNeverWrapped ++ " name=" ++ str vaBuiltinName
+  | "vawrap" :: rest => handleVaWrap rest
+  | "vacodegen" :: rest => handleVaCodegen rest
   | "arms" :: _ => "a=" ++ b01 arrayInDeclarator
   | "wrap" :: rest => handleWrap rest
   | "codegen" :: rest => handleCodegen rest
